@@ -61,7 +61,7 @@ func fsRandPath(r *lib.Rng) string {
 }
 
 func runC02FS(c *Ctx, r *lib.Rng) error {
-	n := c.N(250, 3000)
+	n := c.N(200, 3000)
 	for i := 0; i < n; i++ {
 		cr := r.Fork()
 		// initial tree: well-formed, a few entries
